@@ -97,7 +97,6 @@ def gen_loop_contracts(pair, d, agb, timeout):
     if rc != 0:
         return None, "symbol table: " + err[-300:]
     syms = re.findall(r"^Symbol\.*: (\S+)", out, re.M)
-    result = {"functions": []}
     fentries = []
     for fn, loops in spec["functions"].items():
         names = set()
@@ -110,18 +109,18 @@ def gen_loop_contracts(pair, d, agb, timeout):
             if len(cands) != 1:
                 return None, "loop-contract symbol %s in %s: %d candidates %r" % (n, fn, len(cands), cands[:4])
             mp.append("%s,%s" % (n, cands[0]))
-        ent = {}
+        ents = []
         for l in loops:
-            e = {}
+            e = {"loop_id": str(l["loop"])}
             for k in ("invariants", "assigns", "decreases"):
                 if k in l:
                     e[k] = l[k]
             e["symbol_map"] = ";".join(mp)
-            ent["loop " + str(l["loop"])] = e
-        fentries.append({fn: [{k: v} for k, v in ent.items()]})
+            ents.append(e)
+        fentries.append({fn: ents})
     # format expected by goto-instrument: {"sources": {...}} or {"functions":[{fn:[{"loop N":{...}}]}]}
     out_path = os.path.join(d, "loops.json")
-    json.dump({"functions": fentries}, open(out_path, "w"), indent=1)
+    json.dump({"sources": [], "functions": fentries, "output": "OUTPUT"}, open(out_path, "w"), indent=1)
     return out_path, None
 
 
@@ -173,17 +172,28 @@ def check_pair(prop, pair, tier, keep):
         enf = pair.get("enforce")
         if enf:
             cmd += ["--enforce-contract", enf]
-        for r in pair.get("replace", []):
-            cmd += ["--replace-call-with-contract", r]
+        replace = list(pair.get("replace", []))
         if pair.get("loops") or pair.get("apply_loops"):
             cmd += ["--apply-loop-contracts"]
         cmd += list(pair.get("gi_flags", []))
-        cmd += [agb, bgb]
+        base_cmd = cmd
+        while True:
+            cmd = list(base_cmd)
+            for r in replace:
+                cmd += ["--replace-call-with-contract", r]
+            cmd += [agb, bgb]
+            rc, out, err, _ = run(cmd, 600, 16)
+            m = re.search(r"Function to replace '([^']+)' not found", out + err)
+            if rc != 0 and m and any(r.split("/")[0] == m.group(1) for r in replace):
+                # a callee this translation unit never references needs no contract
+                replace = [r for r in replace if r.split("/")[0] != m.group(1)]
+                continue
+            break
+        res["replace"] = replace
         res["cmds"].append(" ".join(cmd))
-        rc, out, err, _ = run(cmd, 600, 16)
         open(os.path.join(d, "gi.log"), "w").write(out + err)
         if rc != 0:
-            res.update(status="error", reason="goto-instrument failed: " + (err or out)[-800:])
+            res.update(status="error", reason="goto-instrument failed: " + (re.findall(r"(?:Reason|DIAGNOSTICS >>\n)([^\n]*)", out + err) or [(err or out)[-800:]])[-1] + " | " + (err or out)[-300:])
             res["wall_s"] = time.time() - t0
             return res
         for p in LOG_POISON:
@@ -198,7 +208,14 @@ def check_pair(prop, pair, tier, keep):
     if pair.get("unwindset"):
         us = pair["unwindset"]
         if isinstance(us, dict):
-            us = ",".join("%s:%d" % kv for kv in us.items())
+            enf_fn = (pair.get("enforce") or "").split("/")[0]
+            items = []
+            for k, v in us.items():
+                fn, _, n = k.rpartition(".")
+                if mode == "dfcc" and fn == enf_fn:     # dfcc renames the function under contract
+                    fn = fn + "_wrapped_for_contract_checking"
+                items.append("%s.%s:%d" % (fn, n, v))
+            us = ",".join(items)
         cmd += ["--unwindset", us]
     cmd += list(pair.get("cbmc_flags", []))
     res["cmds"].append(" ".join(cmd))
